@@ -47,6 +47,10 @@ def check(repo, res, tier):
     res.rule('C08.A10', 'adopted C05.L1: the scheduler-side count of ingest machines promised to admitted observations is '
                         'released exactly once, when the ingest ends (it is what keeps two admissions of one step under the limit)')
     _borrow(repo, res, tier, c05, {'C05.L1'}, 'C08.A10')
+    from . import c06
+    res.rule('C08.A11', 'adopted C06.W4: an ingest task -- and with it the ingest machines -- lasts exactly the observation\'s '
+                        'duration from the moment it really starts')
+    _borrow(repo, res, tier, c06, {'C06.W4'}, 'C08.A11')
     res.assumptions += ['"starts exactly on time when idle" and same-step admissions reading stale pools are not decided',
                         'the admission checks read current pool/buffer sizes; data still to come from running ingests is not reserved (DESIGN.md section 6)']
     a1(repo, res, canon, pc, logic)
